@@ -1,4 +1,4 @@
-package c17
+package c17tmp
 
 import (
 	"bytes"
